@@ -97,8 +97,10 @@ class NpProxy(object):
     """numpy with `roots` replaced by a prescribed answer"""
     def __init__(self):
         self.answer = None
+        self.calls = 0
 
     def roots(self, p):
+        self.calls += 1
         return numpy.array(self.answer)
 
     def __getattr__(self, name):
@@ -173,8 +175,14 @@ def roots_replay(ck, c, proxy):
     nontriv = len(kept) >= 3 and len(set(r['c'] for r in kept)) < len(kept)
     ck.case(fp=('roots', str(roots)), nontrivial=nontriv)
     coeffs = [1.0] * (len(roots) + 1)
+    calls0 = proxy.calls
     try:
         out1 = pt.polyroots01(coeffs)
+        if proxy.calls == calls0:
+            # the prescribed answer is injected through the module's `np.roots`: a polyroots that finds its roots in another way never sees it (and solves the
+            # dummy polynomial instead) - the replay of Roots.tla's orders says nothing then; the real polynomials below still decide the property
+            ck.drift('polyroots/root-order-injection-no-longer-fits', 'polyroots01 did not call np.roots of svgpathtools.polytools: prescribed root orders cannot be replayed')
+            return
         out2 = pt.polyroots(coeffs, realroots=True, condition=lambda r: 0 <= r <= 1)
     except Exception as e:      # noqa
         ck.disagree(key='polyroots/raises-' + type(e).__name__, site='svgpathtools/polytools.py:polyroots',
